@@ -197,8 +197,10 @@ class Ctx:
         return out
 
     def result(self):
+        from .props import common
         return {"evals": self.evals, "hashes": sorted(self.hashes), "labels": self.labels,
-                "samples": self.samples, "known_hits": self.known_hits}
+                "samples": self.samples, "known_hits": self.known_hits,
+                "errstats": {k: list(v) for k, v in common.ERRSTATS.items()}}
 
 
 def _simpler(a, b):
@@ -339,7 +341,12 @@ def run_property(pid, tier, seed, only=None, procs=None):
     samples = dict(ctx.samples)
     per_sub = {}
     exhaustive_subs = {}
+    errstats = {}
     for r in results:
+        for k, (ratio, cnt) in r.get("errstats", {}).items():
+            cur = errstats.setdefault(k, [0.0, 0])
+            cur[0] = max(cur[0], ratio)
+            cur[1] += cnt
         errors.extend("%s[%d]: %s" % (r["sub"], r["shard"], e) for e in r["errors"])
         evals += r["evals"]
         hashes.update(r["hashes"])
@@ -378,8 +385,13 @@ def run_property(pid, tier, seed, only=None, procs=None):
         print("VIOLATION property=%s replay=%s" % (pid, rel))
         print("  site=%s features=%s\n  %s\n  case=%s" % (site, json.dumps(v["features"]), v["msg"],
                                                           json.dumps(v["case"])[:1500]))
+    seen_err = set()
     for e in errors:
-        print("HARNESS-ERROR %s" % e)
+        key = e.split("]: ", 1)[-1][:200]
+        if key in seen_err:
+            continue
+        seen_err.add(key)
+        print("HARNESS-ERROR %s" % e[:3000])
 
     wall = time.time() - t0
     sample_list = []
@@ -400,6 +412,7 @@ def run_property(pid, tier, seed, only=None, procs=None):
             "exhaustive": bool(exhaustive_subs) and len(exhaustive_subs) == len(subs),
             "exhaustive_sub_domains": exhaustive_subs,
             "violating_sites": sorted(by_site),
+            "numeric_sites": {k: {"comparisons": v[1], "max_err_over_tol": float("%.3g" % min(v[0], 1e300))} for k, v in sorted(errstats.items())},
             "harness_errors": len(errors),
             "engine": "hypothesis %s + enumerators; %d worker processes" % (_hyp_version(), procs),
         },
